@@ -667,7 +667,11 @@ Proof.
       intro W. destruct H2; [congruence | assumption].
     + intros [H2 [H3 H4]]. repeat split; try tauto.
       destruct (wf_opb o); [right; auto | left; reflexivity].
-  - tauto.
+  - destruct read as [o| |]; [| split; [intros _ o' [=] | reflexivity]
+                              | split; [intros _ o' [=] | reflexivity]].
+    split.
+    + intros H o' [= <-]. exact H.
+    + intro H. exact (H o eq_refl).
 Qed.
 
 Lemma view_id_collision (H : bytes -> bytes) (v1 v2 : view) :
